@@ -202,6 +202,8 @@ class Goebner:
         # pylint: disable=too-many-return-statements
         # pylint: disable=too-many-branches
         if t.ast_type == ASTType.Variable:
+            if t.name == "_":  # every occurrence is a variable of its own
+                return None
             s = Symbol(str(t), integer=True)
             self._fo_vars[s] = t
             return s
